@@ -3,7 +3,7 @@ CONSTANTS NConns = 3
   MaxTempErrs = 2
   Recover = TRUE
   RetryTemp = TRUE
-  SequencedBad = TRUE
+  SequencedBad = FALSE
 INIT Init
 NEXT Next
 INVARIANTS FaultClosesOnlyItsConnection HealthyServed UndecodableReported ReportsAccounted NoDrop KeepsAccepting
